@@ -11,7 +11,7 @@ from .. import base, docspec, drivers, explore, report
 from . import common
 
 PROP = "C02"
-KQ = ("CE", "CO", "CEG")
+KQ = ("CE", "CO", "CO0", "CEG")
 KT = KQ + ("CEE", "CD", "NL", "J")
 
 _WS = re.compile(r"\s+")
@@ -73,15 +73,30 @@ def code_after_comment(tokens, vals):
 
 
 def allowed_remover(rule):
-    """rules whose documented purpose is to remove comments"""
+    """rules whose documented purpose is to remove comments: returns 'trailing' (only comments at the end of a line of code:
+    component port/generic clauses and port maps), 'any' (comments inside an aggregate being collapsed onto one line) or None"""
     for c in type(rule).__mro__:
         n = c.__name__
         if n == "remove_comments_from_end_of_lines_bounded_by_tokens":
-            return True
+            return "trailing"
         if n == "multiline_structure":
             v = getattr(rule, "assign_on_single_line", None)
-            return v in ("yes", True)
-    return False
+            return "any" if v in ("yes", True) else None
+    return None
+
+
+def trailing_comments(snap):
+    """coarse texts of the comments that stand at the end of a line holding code"""
+    out = Counter()
+    code_on_line = False
+    for t, v in zip(snap.toks, snap.vals):
+        if isinstance(t, parser.carriage_return):
+            code_on_line = False
+        elif base.is_code(t):
+            code_on_line = True
+        elif base.is_commentish(t) and code_on_line:
+            out[coarse(v)] += 1
+    return out
 
 
 def classify(cb, ca):
@@ -117,7 +132,7 @@ class Mon(drivers.Monitor):
         self.cur = comments_of(ex.snap.toks, ex.snap.vals)
         self.initial = list(self.cur)
 
-    def _check(self, ex, who, rule, after):
+    def _check(self, ex, who, rule, after, before=None):
         if ex.violations:
             return  # the first violation of an execution names the culprit; later differences are its consequences
         ca = comments_of(after.toks, after.vals)
@@ -132,18 +147,26 @@ class Mon(drivers.Monitor):
         kind, what = classify(cb, ca)
         if kind is None:
             return
-        if kind == "comment_lost" and rule is not None and allowed_remover(rule):
+        mode = allowed_remover(rule) if rule is not None else None
+        if kind == "comment_lost" and mode:
             # must be a pure deletion: the survivors keep their order
             it = iter(cb)
             if all(any(x == y for y in it) for x in ca):
-                self.removed_ok.update(Counter(cb) - Counter(ca))
+                gone = Counter(coarse(x) for x in cb) - Counter(coarse(x) for x in ca)
+                if mode == "trailing" and before is not None:
+                    tr = trailing_comments(before)
+                    own = [v for v, n in gone.items() if n > tr.get(v, 0)]
+                    if own:
+                        ex.violation((who, "own_line_comment_removed_by_trailing_comment_rule"), {"comments": own[:2]})
+                        return
+                self.removed_ok.update(gone)
                 self.fired.add(who)
                 return
         ex.violation((who, kind), {"comments": what})
 
     def after_fix(self, ex, rule, before, after, changed):
         if changed:
-            self._check(ex, rule.unique_id, rule, after)
+            self._check(ex, rule.unique_id, rule, after, before)
 
     def on_system(self, ex, name, before, after, changed):
         if changed:
